@@ -57,20 +57,32 @@ def from_world(world, variant, name):
     pods = []
     live = [c for c in world["claims"] if not c["alloc"]]
     for c in world["claims"]:
-        d["claims"].append(claim(c["name"], c["kind"], c["alloc"]))
+        d["claims"].append(claim(c["name"], c["kind"], c["alloc"], c["reserved"], others=c["others"]))
+    nodes = []
+    held = [c["name"] for c in world["claims"] if "bd" in c["reserved"]]
+    if held:        # the model's leaving pod: bound to a node that is marked for deletion, rescheduled in this pass with its claims
+        nodes.append({"name": "nd", "stage": "initialized", "pool": "p0", "labels": {"zone": "a", "ct": "od", "it": "A", "arch": "amd64", "os": "linux", "pool": "p0"},
+                      "taints": [], "startup": [], "ephemeral": False, "alloc": {"cpu": 2000, "mem": 8000, "pods": 110},
+                      "cap": {"cpu": 2000, "mem": 8000, "pods": 110}, "marked": True, "deleting": False, "csi": []})
+        bd = sc.plain_pod("bd", 300, 128)
+        bd["node"], bd["owner"], bd["tol"] = "nd", "rs", [dict(sc.TOL_ALL)]
+        pods.append(bd)
+        d["podClaims"].append({"pod": "default/bd", "claims": held})
+    live = [c for c in live if c["name"] not in held]
     sizes = SIZES[variant]
     i = 0
     while i < len(live):
-        p = sc.plain_pod("w%d" % len(pods), sizes[len(pods) % len(sizes)], 128)
+        nw = sum(1 for x in pods if x["name"].startswith("w"))
+        p = sc.plain_pod("w%d" % nw, sizes[nw % len(sizes)], 128)
         mine = [live[i]["name"]]
-        if variant == 4 and i + 1 < len(live) and not pods:
+        if variant == 4 and i + 1 < len(live) and not nw:
             mine.append(live[i + 1]["name"])
             i += 1
         i += 1
         pods.append(p)
         d["podClaims"].append({"pod": "default/" + p["name"], "claims": mine})
     return {"name": name, "options": dict(OPTS, workers=(1, 2, 8)[variant % 3]), "types": [itype("A", 2000), itype("B", 4000)],
-            "pools": [pool()], "nodes": [], "ds": [], "scs": [], "pvs": [], "pvcs": [], "pods": pods, "dra": d}
+            "pools": [pool()], "nodes": nodes, "ds": [], "scs": [], "pvs": [], "pvcs": [], "pods": pods, "dra": d}
 
 
 def dev(name, multi=False, cap=0, ctr=0):
